@@ -560,6 +560,51 @@ def gen_fixture(rng, lo=False, with_tcp=False, sched_focus=False):
             "flavour": "fixture-lo" if lo else "fixture-tcp" if with_tcp else "fixture-sched" if sched_focus else "fixture"}
 
 
+def gen_coincide(rng, variant=None):
+    """deadlines that coincide exactly between delayed and zero-delay packets to one destination:
+    "a" leaves with Deliver(k ticks); k ticks later "b" leaves with no delay (Pass / Deliver(0) / no rule
+    left because the latency guard was dropped meanwhile); several of each.  Arrival order at the
+    destination must be emission order: everything that came due first, then this tick's packets."""
+    variant = rng.randrange(3) if variant is None else variant
+    hosts = [["10.0.0.1"], ["10.0.1.1"], ["10.0.2.1"]]
+    dst = "10.0.1.1"
+    ks = sorted(rng.sample([1, 2, 3, 4], rng.randrange(1, 4)), reverse=True)     # delays in ticks
+    t0 = 1
+    base = t0 + max(ks)                 # the step in which the zero-delay packets leave
+    nsteps = base + 4
+    tags = Tags()
+    s0 = [[] for _ in range(nsteps)]
+    s2 = [[] for _ in range(nsteps)]
+    table, late = [], []
+    for k in ks:                        # "a" packets: sent k steps before `base`, deadline = tick of `base`+1
+        for _ in range(rng.randrange(1, 3)):
+            t = tags.next()
+            table.append([t, ["deliver", k * TICK]])
+            (s0 if rng.random() < 0.7 else s2)[base - k].append(["udp", dst, t])
+    for _ in range(rng.randrange(1, 4)):    # "b" packets
+        t = tags.next()
+        late.append(t)
+        (s0 if rng.random() < 0.7 else s2)[base].append(["udp", dst, t])
+    if variant == 0:        # per-packet delay function: b falls through to Pass
+        spec = {"t": "bytag", "tbl": table, "d": "pass"}
+        s0[0].append(["install", 1, spec])
+    elif variant == 1:      # b gets an explicit Deliver(0)
+        spec = {"t": "bytag", "tbl": table + [[t, ["deliver", 0]] for t in late], "d": "drop"}
+        s0[0].append(["install", 1, spec])
+    else:                   # a latency guard dropped while the delayed packets are in flight
+        k = ks[0]
+        s0 = [[] for _ in range(nsteps)]
+        s2 = [[] for _ in range(nsteps)]
+        s0[0].append(["install", 1, {"t": "const", "v": ["deliver", k * TICK]}])
+        for _ in range(rng.randrange(1, 4)):
+            (s0 if rng.random() < 0.7 else s2)[base - k].append(["udp", dst, tags.next()])
+        s0[base - 1].insert(0, ["drop", 1]) if base - 1 > base - k else s0[base].insert(0, ["drop", 1])
+        for _ in range(rng.randrange(1, 4)):
+            s0[base].append(["udp", dst, tags.next()])
+    return {"mode": "fixture", "cfg": {"hosts": hosts, "lo": False, "nsteps": nsteps, "tcp": []},
+            "script": {"0": s0, "1": [], "2": s2}, "flavour": "coincide"}
+
+
 def exhaustive_chains():
     """every chain of <= 3 constant rules over {pass, drop, deliver 0, deliver d}, one datagram each,
     then every single removal followed by another datagram (manual mode)."""
